@@ -47,6 +47,10 @@ def run_noloss(case):
     # packets may have crossed another wire before: their current_time field carries a stale stamp
     for pkt, stale in zip(pkts, case.get("prestamp", [])):
         pkt.current_time = stale
+    # packet ids are unique per flow only: every generator counts from 1, every TCP flow from sequence 0
+    if case.get("idmod"):
+        for i, pkt in enumerate(pkts):
+            pkt.packet_id = 1 + i % case["idmod"]
     # and they were created some time before they reach this wire (queues, earlier hops): creation time != entry time
     for pkt, age in zip(pkts, case.get("ages", [])):
         pkt.time = pkt.time - age
@@ -88,6 +92,8 @@ def run_noloss(case):
         classes.add("zero delay")
     if classes_neg:
         classes.add("negative draw (due at once)")
+    if case.get("idmod"):
+        classes.add("packets of different flows share packet ids")
     if any(0 < (d % (2 ** -20)) for _, d in calls):
         classes.add("sub-nanosecond delay component")
     if any(a for a in case.get("ages", [])[:len(ins)]):
@@ -486,7 +492,8 @@ def noloss_strategy(tier):
         wl = netlab.workload([0, 1], n_max=50 if big else 25, exact=exact, min_size=3, late=True)
         return st.fixed_dictionaries({"exact": st.just(exact), "delays": dl, "wl": wl, "loss_rate": st.sampled_from([None, None, 0]),
                                       "prestamp": st.lists(st.sampled_from([0, 0, 0.5, 100, 3]), max_size=10),
-                                      "ages": st.lists(st.sampled_from([0, 0.5, 2, 8, 0.125, 100]), max_size=10)})
+                                      "ages": st.lists(st.sampled_from([0, 0.5, 2, 8, 0.125, 100]), max_size=10),
+                                      "idmod": st.sampled_from([None, None, 1, 2, 3])})
     return kgen.weighted([(build(True), 3), (build(False), 1)])
 
 
@@ -526,7 +533,7 @@ PROP = Property(
         Facet("noloss", noloss_strategy, run_noloss, quick=1200, thorough=8000,
               essential=["held back by predecessor (clamp)", "own delay decides", "zero delay",
                          "packet older than its entry into the wire", "sub-nanosecond delay component",
-                         "negative draw (due at once)"]),
+                         "negative draw (due at once)", "packets of different flows share packet ids"]),
         Facet("loss", loss_strategy, run_loss, quick=600, thorough=4000,
               essential=["constant draw below p", "constant draw above p", "seeded draws", "loss rate 1", "some lost, some delivered"]),
         Facet("loss_varying", loss_varying_strategy, run_loss_varying, quick=600, thorough=4000,
